@@ -333,6 +333,25 @@ def xmlenc_cases(rng, n):
             b = xmlspec.enc_l10(st, t, "")
             cases.append(("xmlenc l10 %d,%d,%d,%s" % (t["id"], b[2][1], b[2][2], ",".join(str(scaled(v)) for v in t["prim"])),
                           "ok %d %s" % (b[1], ",".join(str(v) for v in b[2]))))
+    # the L6 / source-level / target-PQ encodings (Proofs/XmlMoreProof.lean: l6Light, l6MinLum, pqOfNits, pqOfMinLum,
+    # sourceMinPqOfXml) against the exact-rational spec
+    for k in range(max(20, n // 20)):
+        lights = [rng.choice(["0", "1000", "999.5", "1000.4999", "65535", "65535.5", "70000", "0.5", "0.49"]) if k % 3 == 0
+                  else str(xmlgen.rand_dec(rng, 0, 12000, 4)) for _ in range(4)]
+        exp = [xmlspec.sat(st.round(Fraction(v), ""), 65535) for v in lights]
+        cases.append(("xmlenc l6light " + ",".join(str(scaled(v)) for v in lights), "ok " + ",".join(map(str, exp))))
+        mins = [rng.choice(["0", "0.0001", "0.0007", "0.00074", "0.00075", "0.005", "0.00005", "0.00004", "1"]) if k % 3 == 0
+                else str(xmlgen.rand_dec(rng, 0, 1, 6)) for _ in range(4)]
+        expm = [xmlspec.sat(st.round(Fraction(v) * 10000, ""), 65535) for v in mins]
+        cases.append(("xmlenc l6minlum " + ",".join(str(scaled(v)) for v in mins), "ok " + ",".join(map(str, expm))))
+        cases.append(("xmlenc srcminpq " + ",".join(str(scaled(v)) for v in mins),
+                      "ok " + ",".join(str(xmlspec.sat(st.round(xmlspec.pq_scaled(Fraction(m, 10000)), ""), 65535)) for m in expm)))
+        nits = [rng.choice([0, 1, 100, 600, 1000, 2000, 4000, 10000]) if k % 3 == 0 else rng.below(10001) for _ in range(4)]
+        cases.append(("xmlenc pqnits " + ",".join(map(str, nits)),
+                      "ok " + ",".join(str(xmlspec.sat(st.round(xmlspec.pq_scaled(Fraction(v)), ""), 65535)) for v in nits)))
+        ks = [rng.below(10001) for _ in range(4)]
+        cases.append(("xmlenc pqminlum " + ",".join(map(str, ks)),
+                      "ok " + ",".join(str(xmlspec.sat(st.round(xmlspec.pq_scaled(Fraction(v, 10000)), ""), 65535)) for v in ks)))
     return cases
 
 
